@@ -25,6 +25,7 @@ Fixpoint encode_pairs (l : list (pystr * pystr)) : option (list pystr) :=
 Definition urlencode (l : list (pystr * pystr)) : option pystr := option_map (join [amp]) (encode_pairs l).
 
 Definition is_ascii (s : pystr) : bool := forallb (fun c => c <? 128) s.
+Definition nonempty (s : pystr) : bool := match s with [] => false | _ => true end.
 
 (* unquote(x.replace('+', ' ')) for an ASCII x *)
 Definition unquote_str (s : pystr) : option pystr := utf8_decode (unquote_plus s).
